@@ -9,21 +9,32 @@ props = [json.loads(l) for l in open(os.path.join(HERE, "properties.jsonl"))]
 
 # rules written only after a seeded change (first or second round) had shown the gap
 AFTER_SEED = {
- "C01": ["ITER-WALK-STOP and NODE-CAPACITY were written with seeds C01_A/B known (both were listed in the design as clause 3 / capacity independence, but not implemented before)"],
- "C02": ["UNDERFLOW-LEGAL's separator-slot clause and ASSIGN-ORDER were written with seeds C02_A/B known (both clauses are in the original design)"],
- "C03": ["HOME-BEFORE-INPLACE and LCP-SLOT0 were written with seeds C03_A/B known; the second-round seeds C03_C/D were caught by rules that existed before (DEPTH-ADVANCE, ENTRY-FORWARD/CHAR-UNSIGNED)"],
- "C04": ["COPY-BACK and the memory-order clause of RMW-RESULT"],
- "C05": ["PHASE-LENGTH-SUM, TAIL-ORDER; second round: the loser-tree tables of C09 were extended to the trees C05 instantiates (C05_C), SENTINEL-REACH existed (C05_D)"],
- "C06": ["SPLIT-INDEX-BOUND; second round: C09's REPLAY-TABLE extended to the trees C06 instantiates (C06_C), SPLIT-INDEX-BOUND existed (C06_D)"],
- "C08": ["TWIN-AGREE"],
- "C10": ["JOB-LIFETIME"],
- "C13": ["HANDLE-GROW, CLEAR-COMPLETE"],
- "C14": ["the shift-width clause of SIP-TAIL"],
- "C16": ["CURSOR-RESET, SV-COUPLED"],
- "C17": ["LRU-PUT-STORES, SPLAY-WRITEBACK"],
- "C18": ["SCAN-BOUND"],
- "C19": ["B64-SKIP, FORWARD-ROLES"],
- "C20": ["BOOL-TOTAL, COMBINE-FORMULA"],
+ "C01": ["round 1: ITER-WALK-STOP and NODE-CAPACITY were written with C01_A/B known (both are clauses of the first design); round 2: C01_D reported by DESCENT-SEARCH (existed), "
+         "BULK-LOAD-SHAPE written with C01_C known"],
+ "C02": ["round 1: UNDERFLOW-LEGAL's separator-slot clause and ASSIGN-ORDER written with C02_A/B known; round 2: C02_C (same slip as C01_B) and C02_D reported by NODE-CAPACITY / ROOT-COLLAPSE (existed)"],
+ "C03": ["round 1: HOME-BEFORE-INPLACE and LCP-SLOT0 written with C03_A/B known; round 2: C03_C/D reported by DEPTH-ADVANCE and ENTRY-FORWARD/CHAR-UNSIGNED (existed)"],
+ "C04": ["round 1: COPY-BACK and the memory-order clause of RMW-RESULT; round 2: C04_D reported by USE-AFTER-RELEASE (existed), PACKED-LCP-MASK written with C04_C known; "
+         "STALE-DATA-POINTER written after a sub-agent's side remark, it found a genuine defect"],
+ "C05": ["round 1: PHASE-LENGTH-SUM, TAIL-ORDER; round 2: C05_D reported by SENTINEL-REACH (existed), C05_C by C09's REPLAY-TABLE once applied to the trees C05 instantiates"],
+ "C06": ["round 1: SPLIT-INDEX-BOUND; round 2: C06_D reported by SPLIT-INDEX-BOUND (existed), C06_C by C09's REPLAY-TABLE once applied to the trees C06 instantiates"],
+ "C07": ["round 2: C07_C/D sit in multisequence_partition and are reported by LEXI-TABLE / TWIN-AGREE once C08's rules are applied inside C07; the sub-agent's side remark on sampling "
+         "splitting led to SLAB-LENGTH and a genuine defect"],
+ "C08": ["round 1: TWIN-AGREE; round 2: COMP-THREADED and SIGN-TEST-SIGNED written with C08_C/D known (the witness gained an unsigned rank type and std::greater)"],
+ "C09": ["round 2: C09_D reported by REPLAY-TABLE (existed); the padding-tie clause of REPLAY-TABLE written with C09_C known"],
+ "C10": ["round 1: JOB-LIFETIME; round 2: C10_D reported by NOTIFY-KIND (existed), EXCEPTION-BALANCED written with C10_C known"],
+ "C11": ["round 2: both reported by rules that existed (SEM-GUARDED-TAKE, BARRIER-ORDER)"],
+ "C12": ["round 2: both reported by RC-CONSERVE (existed)"],
+ "C13": ["round 1: HANDLE-GROW, CLEAR-COMPLETE; round 2: BUILD-REPLACES and the clear_all() instance of CLEAR-COMPLETE written with C13_C/D known; CLZ-WIDTH written after a "
+         "sub-agent's side remark, it found a genuine defect"],
+ "C14": ["round 1: the shift-width clause of SIP-TAIL; round 2: C14_C reported by FINAL-THRESHOLDS (existed), SIMD-ALIGNMENT written with C14_D known"],
+ "C15": ["round 2: C15_D reported by NET-SORTS (existed); on C15_C the old CSWAP-TABLE could only say 'cannot decide' (exit 2), it now evaluates min/max formulations"],
+ "C16": ["round 1: CURSOR-RESET, SV-COUPLED; round 2: C16_C reported by CURSOR-RESET (existed), CAPACITY-SPARE-SLOT written with C16_D known"],
+ "C17": ["round 1: LRU-PUT-STORES, SPLAY-WRITEBACK; round 2: both reported by rules that existed (LRU-ENDS, SPLAY-ALLOC-PAIR)"],
+ "C18": ["round 1: SCAN-BOUND; round 2: both exposed holes in existing rules - BYTE-ORDER-UNSIGNED did not look at hand-written char comparisons (C18_C), and GUARD-TABLES accepted any scan "
+         "on an empty view (C18_D); both closed"],
+ "C19": ["round 1: B64-SKIP, FORWARD-ROLES; round 2: C19_C reported by QUOTE-AGREE (existed), REPLACE-RESUME written with C19_D known"],
+ "C20": ["round 1: BOOL-TOTAL, COMBINE-FORMULA; round 2: C20_D reported by NO-OVERFLOW-BEFORE-NARROW (existed); COMBINE-FORMULA evaluated `/` exactly and missed a truncating integer "
+         "division (C20_C), closed"],
 }
 DROPPED = {
  "C07": ["LAST-SLAB-END: after the ADVANCE-EXACT fix the last slab's end is no longer a necessary condition; seed C07_A became behaviour-preserving (its demo passes) and is kept as the silent variant selftest/C07/silent_last_slab_to_end.patch"],
@@ -76,7 +87,7 @@ for p in props:
     if sd:
         print("*Seeded changes:* " + "; ".join("%s → %s" % (m["id"], ", ".join(sorted(set(r["rule"] for r in m["check_result"]["reported_by"]))) or "NOT REPORTED") for m in sd) + ".\n")
     if pid in AFTER_SEED:
-        print("*Written after a seeded change had shown the gap:* " + "; ".join(AFTER_SEED[pid]) + ".\n")
+        print("*Seeds and rules, honestly:* " + "; ".join(AFTER_SEED[pid]) + ".\n")
     if pid in DROPPED:
         print("*Dropped:* " + "; ".join(DROPPED[pid]) + ".\n")
     if pid in FALSE_ALARMS:
